@@ -16,6 +16,7 @@ oracle : model-free — NodeProto / built ModelProto inspected directly (one nod
 from __future__ import annotations
 
 import dataclasses
+import json
 import re
 import typing
 import warnings
@@ -204,6 +205,11 @@ def gen_sig(rng, idx: int, force=None):
     for a in sig["attrs"]:
         inst["attrs"][a["name"]] = not a["optional"] or rng.random() < 0.6
     sig["inst"] = inst
+    slots = [s for s in raw_slots(sig) if s]
+    if len(slots) >= 2 and rng.random() < 0.35:
+        from harness.props.c11 import repeat_patterns
+
+        inst["same"] = rng.choice(repeat_patterns(slots, rng))
     return sig
 
 
@@ -284,7 +290,18 @@ def instantiate(env: Env, sig, cls, rng, given_inputs=None):
     names, kw = {}, {}
     keep = []
 
+    rep = rep_of(sig)
+    made = {}
+
     def mk(name):
+        name = rep.get(name, name)
+        if name in made:  # the very same Var object in another slot
+            return made[name]
+        v = _mk(name)
+        made[name] = v
+        return v
+
+    def _mk(name):
         if given_inputs is not None and name in given_inputs:
             v = given_inputs[name]
         else:
@@ -374,7 +391,21 @@ def emit_real(env: Env, node, names):
     return node.to_onnx(scope, build_subgraph=lambda n, key, g: onnx.helper.make_graph([], key, [], []))
 
 
+def rep_of(sig):
+    """slot name -> name of the slot whose Var it shares (`inst["same"]`: groups of slots given one Var)"""
+    m = {}
+    for group in sig["inst"].get("same") or []:
+        for s in group:
+            m[s] = group[0]
+    return m
+
+
 def expected_slots(sig):
+    rep = rep_of(sig)
+    return [rep.get(x, x) for x in raw_slots(sig)]
+
+
+def raw_slots(sig):
     inst = sig["inst"]
     ins = []
     for n, k in sig["inputs"]:
@@ -389,14 +420,16 @@ def expected_slots(sig):
 
 def node_request(sig, avals_repr):
     inst = sig["inst"]
+    rep = rep_of(sig)
+    r = lambda x: rep.get(x, x)  # noqa: E731
     ins = []
     for n, k in sig["inputs"]:
         if k == "single":
-            ins.append({"k": "s", "v": f"in_{n}"})
+            ins.append({"k": "s", "v": r(f"in_{n}")})
         elif k == "optional":
-            ins.append({"k": "o", "v": f"in_{n}" if inst["present"][n] else None})
+            ins.append({"k": "o", "v": r(f"in_{n}") if inst["present"][n] else None})
         else:
-            ins.append({"k": "v", "v": [f"in_{n}_{i}" for i in range(inst["nvar"])]})
+            ins.append({"k": "v", "v": [r(f"in_{n}_{i}") for i in range(inst["nvar"])]})
     outs, i = [], 0
     for n, k in sig["outputs"]:
         if k == "variadic":
@@ -494,6 +527,7 @@ def _run_case(ck, env: Env, sig, rng, reqs, metas, stats):
     if node.opset_req != {(sig["domain"], sig["version"])}:
         ck.failure("import:opset_req", f"opset_req {node.opset_req}", case)
     stats["absent_optionals"] += sum(1 for x in p.input if x == "")
+    stats["repeated_var"] = stats.get("repeated_var", 0) + int(bool(sig["inst"].get("same")))
     stats["trailing_absent_kept"] += int(len(p.input) > 0 and p.input[-1] == "")
     stats["attrs"] += len(got_attrs)
     ck.count(("node", repr(sig["inputs"]), repr(sig["outputs"]), repr(sig["attrs"]), sig["thook"], sig["vhook"], repr(sig["inst"])))
@@ -842,6 +876,114 @@ def reinfer_case(ck, env: Env, sig, rng):
             "level": 0, "concrete": ["T0", "T1"], "inTypes": []}, keys
 
 
+
+# ----------------------------------------------------------------------------- relabelling (custom_composes)
+def relabel_cases(ck, env: Env, rng, stats, n_random: int, only_aps=None):
+    """Tie of `relabel_build` / `custom_composes`: abstract programs of the Builder model (C04's
+    generators) are realised twice - with standard operators, and with user-defined operators in
+    the place of a random subset of the Neg/Add/Sum applications - and everything the Builder decides
+    (verdict, nested emission read from the ModelProto, graph_topo / arguments_of / scope_of /
+    scope_own) must be identical; C04's model-free oracle judges the custom realisation."""
+    try:
+        from harness import lib_buildalg as L
+        from harness import lib_buildgen as G
+        from harness.props.c04 import _observe_all
+    except Exception as e:  # noqa: BLE001
+        ck.broken("correspondence", "Builder-model harness (C04) not available", f"{type(e).__name__}: {e}")
+        return
+    np, ts = env.np, env.ts
+    Var = env.Var
+
+    def mk_cls(name, fields):
+        Inputs = dataclasses.make_dataclass("Inputs", fields, bases=(env.F.BaseInputs,))
+        Outputs = dataclasses.make_dataclass("Outputs", [("y", Var)], bases=(env.F.BaseOutputs,))
+        Attributes = dataclasses.make_dataclass("Attributes", [], bases=(env.F.BaseAttributes,))
+        return type(name, (env.N.Node,), {
+            "op_type": env.N.OpType(name, "my.relabel", 2), "Attributes": Attributes, "Inputs": Inputs,
+            "Outputs": Outputs, "infer_output_types": lambda self: {"y": ts.Tensor(np.float32, ())},
+        })
+
+    CNeg = mk_cls("CNeg", [("a", Var)])
+    CAdd = mk_cls("CAdd", [("a", Var), ("b", Var)])
+    CSum = mk_cls("CSum", [("xs", typing.Sequence[Var])])
+
+    class OpProxy:
+        def __init__(self, real, choose):
+            self._real, self._choose = real, choose
+
+        def __getattr__(self, k):
+            return getattr(self._real, k)
+
+        def neg(self, a):
+            return CNeg(CNeg.Attributes(), CNeg.Inputs(a=a)).outputs.y if self._choose() else self._real.neg(a)
+
+        def add(self, a, b):
+            return CAdd(CAdd.Attributes(), CAdd.Inputs(a=a, b=b)).outputs.y if self._choose() else self._real.add(a, b)
+
+        def sum(self, xs):
+            return CSum(CSum.Attributes(), CSum.Inputs(xs=xs)).outputs.y if self._choose() else self._real.sum(xs)
+
+    aps = []
+    try:
+        hm = [] if only_aps is not None else G.handmade_aps()
+        aps += list(hm.values()) if isinstance(hm, dict) else [a[1] if isinstance(a, tuple) else a for a in hm]
+    except Exception as e:  # noqa: BLE001
+        ck.broken("correspondence", "handmade abstract programs not available", f"{type(e).__name__}: {e}")
+    aps += only_aps or []
+    for i in range(n_random):
+        try:
+            with warnings.catch_warnings():
+                warnings.simplefilter("ignore")
+                R0 = L.realise_script(G.random_script(rng, rng.randrange(4, 16), 0.1))
+            aps.append(R0.ap)
+        except Exception:  # noqa: BLE001 - not realisable: not a program
+            continue
+    real_spox = L._spox
+    n_cmp = n_custom = 0
+    try:
+        for ap in aps:
+            if not isinstance(ap, dict) or "nodes" not in ap:
+                continue
+            try:
+                with warnings.catch_warnings():
+                    warnings.simplefilter("ignore")
+                    std = _observe_all(L, L.realise_lowlevel(ap), ap)
+                    pseed = rng.randrange(1 << 30)
+                    prng = __import__("random").Random(pseed)
+                    sp, op_real, gr, AG = real_spox()
+                    L._spox = lambda: (sp, OpProxy(op_real, lambda: prng.random() < 0.6), gr, AG)
+                    try:
+                        Rc = L.realise_lowlevel(ap)
+                    finally:
+                        L._spox = real_spox
+                    k = sum(1 for nd in Rc.nodes if type(nd) in (CNeg, CAdd, CSum))
+                    if k == 0:
+                        continue
+                    cus = _observe_all(L, Rc, ap)
+            except Exception as e:  # noqa: BLE001
+                stats["relabel_unrealisable"] = stats.get("relabel_unrealisable", 0) + 1
+                continue
+            n_cmp += 1
+            n_custom += k
+            case = {"kind": "relabel", "ap": ap, "pseed": pseed}
+            for key, what in cus["oracle"]:
+                if (key, what) not in std["oracle"]:
+                    ck.failure(f"compose:{key}", "program with user-defined operators in it: " + what, case)
+            for facet in ("verdict", "trace"):
+                if std.get(facet) != cus.get(facet):
+                    ck.failure(f"compose:relabel:{facet}",
+                               f"the same program built with user-defined operators in place of {k} standard ones differs in "
+                               f"{facet}: standard {str(std.get(facet))[:150]} vs custom {str(cus.get(facet))[:150]}", case)
+            if std.get("facets") != cus.get("facets"):
+                ck.broken("correspondence", "relabel_build: Builder internals differ between standard and custom realisation",
+                          json.dumps({"ap": L.ap_for_model(ap), "std": std.get("facets"), "custom": cus.get("facets")})[:900])
+            ck.count(("relabel", json.dumps(L.ap_for_model(ap), sort_keys=True)))
+    finally:
+        L._spox = real_spox
+    stats["relabel_programs"] = n_cmp
+    stats["relabel_custom_nodes"] = n_custom
+
+
 # ----------------------------------------------------------------------------- run
 FORCED = [
     {"inputs": [("i0", "single"), ("i1", "optional"), ("i2", "optional")], "thook": "absent", "vhook": "absent", "level": 2},
@@ -856,7 +998,11 @@ def run(ck: core.Check):
     ck.lean(["SpoxModel.Props.C18"], audit="SpoxModel.Audit.C18")
     if ck.thorough:
         ck.leanchecker(["SpoxModel.Props.C18"])
-    env = Env(ck)
+    try:
+        env = Env(ck)
+    except Exception as e:  # noqa: BLE001
+        ck.broken("correspondence", "spox (public API / extension interface) not importable", f"{type(e).__name__}: {e}")
+        return
     rng = ck.rng
     stats = {"warnings": 0, "absent_optionals": 0, "trailing_absent_kept": 0, "attrs": 0,
              "exec_runs": 0, "exec_runtime_unsupported": 0, "thook": {}, "vhook": {}}
@@ -880,7 +1026,13 @@ def run(ck: core.Check):
                                                + ([("i3", "variadic")] if tail is not None else [])})
             sig["inst"]["present"] = {f"i{j}": bool(bits >> j & 1) for j in range(3)}
             sig["inst"]["nvar"] = tail or 0
+            sig["inst"].pop("same", None)
             run_case(ck, env, sig, rng, reqs, metas, stats)
+            from harness.props.c11 import repeat_patterns
+
+            for pat in repeat_patterns([s for s in raw_slots(sig) if s], rng, 0):
+                sig2 = dict(sig, inst=dict(sig["inst"], same=pat))
+                run_case(ck, env, sig2, rng, reqs, metas, stats)
     # second inference
     re_meta = []
     for i in range(ck.pick(20, 100)):
@@ -915,6 +1067,11 @@ def run(ck: core.Check):
         reqs.append({"kind": "opsets", "reqs": [[d, v] for d, v in rs]})
         metas.append(("opsets", None, (real, "random set")))
         ck.count(("policy", tuple(rs)))
+    # the Builder does not look at the node's class (relabel_build / custom_composes)
+    try:
+        relabel_cases(ck, env, rng, stats, ck.pick(60, 600))
+    except Exception as e:  # noqa: BLE001
+        ck.broken("correspondence", "relabelling cases not observable", f"{type(e).__name__}: {e}")
     # execution
     for position in ("top", "if", "twice"):
         for k in (2.5, -0.75):
@@ -990,6 +1147,11 @@ def replay(ck: core.Check, doc) -> bool:
         exec_case(ck, env, c["position"], c["k"], stats)
     elif c["kind"] == "reinfer":
         reinfer_case(ck, env, fix(c["sig"]), rng)
+    elif c["kind"] == "relabel":
+        class _R:  # replays the recorded choice of relabelled nodes
+            def randrange(self, n):
+                return c["pseed"]
+        relabel_cases(ck, env, _R(), stats, 0, only_aps=[c["ap"]])
     for f in ck.failures:
         print(f"{f['key']}: {f['what']}")
     key = doc.get("key")
